@@ -64,6 +64,9 @@ class Enc:
         def add(i, t):
             out.append(t)
             src.append(i)
+        # a flag set in memory whose own write failed is persisted by the process's later successful
+        # demotion (the demotion serializes the same in-memory config)
+        pending_flag = {}
         for i, ev in enumerate(trace):
             k, p = ev["k"], cN(ev["p"])
             if k == "create":
@@ -72,6 +75,8 @@ class Enc:
                 add(i, f"ELoad {p} {cbool(ev['try_promote'])} {cbool(ev['promoted'])} {cbool(ev['complete'])} {cbool(ev['canceled'])}")
             elif k == "demote":
                 if ev["ok"]:
+                    for flag in pending_flag.pop(ev["p"], []):
+                        add(i, f"{flag} {p}")
                     add(i, f"EDemote {p}")
                 elif ev.get("error") == "AssertionError":
                     add(i, f"EDemote {cN(999999)}")       # demote by a process that is not the submitter: never allowed
@@ -121,9 +126,12 @@ class Enc:
                 elif ev.get("error") == "AssertionError":
                     add(i, f"EMarkComplete {cN(999999)}")   # completing a complete submission: never allowed
                 else:
-                    add(i, f"EKill [{p}]")                  # the write failed; the process dies holding the role
+                    pending_flag.setdefault(ev["p"], []).append("EMarkComplete")   # persisted by the demotion, if that succeeds
             elif k == "mark_canceled":
-                add(i, f"EMarkCanceled {p}")
+                if ev.get("ok", True):
+                    add(i, f"EMarkCanceled {p}")
+                else:
+                    pending_flag.setdefault(ev["p"], []).append("EMarkCanceled")
             elif k == "scancel":
                 add(i, f"EScancel {p} {cN(int(ev['id']))}")
             elif k == "batch_start":
